@@ -460,4 +460,40 @@ def rule_fresh_rename(ctx):
     ctx.add("FLOW-PIPE", "rename:all-atoms", ok and vf[:2] == ("call", "Apply::apply"), ctx.site(f), "renaming visits every atomic formula through Apply::apply")
 
 
-RULES = [rule_translation, rule_routing, rule_assembled, rule_fresh_rename]
+def rule_definitions_survive_simplification(ctx):
+    """decompose simplifies the completed theories BEFORE head_predicate classifies each formula as a definition (forall* (atom <-> body)) or a
+    constraint.  A rewrite whose left-hand side has `<->` at its root can turn a completed definition (e.g. `p(V) <-> #false`) into a
+    non-equivalence; it would then be routed as a constraint (a conjecture) instead of a definition (an assumption)."""
+    from .. import rw
+    from . import c07
+    fx = ctx.facts
+    pf = c07.portfolios(fx)
+    n = 0
+    for name, ps in sorted(pf.items()):
+        for p_ in ps:
+            bs = fx.bodies.get(p_)
+            if not bs:
+                continue
+            try:
+                rules = rw.rules_of_fn(bs[0])
+            except rw.NotSchematic:
+                continue
+            for lab, l, r, eqs in rules:
+                n += 1
+                root = l[1] if l[0] == "bin" else None
+                can_be_iff = root == "iff" or (isinstance(root, tuple) and root[0] == "cvar" and "iff" in root[2])
+                keeps = r[0] == "bin" and (r[1] == "iff" or r[1] == root) and r[2] == l[2]
+                ctx.add("FLOW-PIPE", "definitions-survive:%s:%s" % (hq.last(p_), lab), (not can_be_iff) or keeps, ctx.site(bs[0]),
+                        "%s  =>  %s : %s" % (rw.show(l), rw.show(r), "does not match an equivalence at its root" if not can_be_iff else
+                                              ("keeps the defined atom and the equivalence" if keeps else "rewrites the root of an equivalence: a completed definition such as `p(V) <-> #false` would no longer be recognised by head_predicate")),
+                        nontrivial=can_be_iff)
+    ctx.floor("FLOW-PIPE", "schematic_rules_checked", n, 5)
+
+
+def rule_break_preserves_meaning(ctx):
+    """conclusions are split by break_equivalences before they become conjectures: the split must be meaning preserving (shared with C19)"""
+    from .c19 import rule_break
+    rule_break(ctx)
+
+
+RULES = [rule_translation, rule_routing, rule_assembled, rule_fresh_rename, rule_definitions_survive_simplification, rule_break_preserves_meaning]
